@@ -191,6 +191,18 @@ def run(tier, seed):
                                     "limits": {"depth": 32, "max_seq": 100, "max_alloc": 1 << 16}})
                     sk_si.append(si_)
                     sk_paths.append(path)
+    # blocks written with a byte size (negative counts), CUT anywhere, read by an ignoring target through a reader: jumping over a block whose
+    # bytes are not all there must return (an error), never wait for input that does not come
+    for n in (3, 5):
+        v = {"t": "rec", "es": [LONG(1), {"t": "arr", "es": [nest("t", 0) for _ in range(n)]}]}
+        for sd in (1, 2, 3):
+            b = pyavro.encode(rt, 1, v, random.Random(100 * n + sd))
+            for cut in range(1, len(b)):
+                for path in ([], [1]):
+                    sk_cmds.append({"op": "de", "id": len(sk_cmds), "schema": {"nodes": rt}, "bytes": b[:cut], "reader": {"kind": "chunks", "sched": [1 + cut % 4]}, "ignore": [path],
+                                    "limits": {"depth": 32, "max_seq": 1000, "max_alloc": 1 << 16}})
+                    sk_si.append(2)
+                    sk_paths.append(path)
     sk_obs = common.run_harness(sk_cmds, per_cmd_timeout=30)
     sk_events = []
     for si, c, o, pth in zip(sk_si, sk_cmds, sk_obs, sk_paths):
